@@ -121,7 +121,7 @@ func checkInitResultAcked(c *report.Ctx) {
 			}
 		})
 	}
-	c.Check("R-PAIR", "L/rapid/init-result-acknowledged", "every hand-over of the init result is followed, on every path, by the receive of its acknowledgement", ok && n >= 3, token.NoPos, n, "hand-over sites: %d; problems: %v", n, bad)
+	c.Check("R-PAIR", "L/rapid/init-result-acknowledged", "every hand-over of the init result is followed, on every path, by the receive of its acknowledgement", ok && n >= 2, token.NoPos, n, "hand-over sites: %d; problems: %v", n, bad)
 }
 
 // checkStartWiresConfiguration: rapid.Start copies every configuration field of the Sandbox that has a
